@@ -46,14 +46,38 @@ type history struct {
 }
 
 // fold turns the per-key steps of a TLC behaviour into API-level operations.
-func fold(b gbeh, scale int) history {
+//
+// scale > 0: every model access becomes scale real accesses. scale == 0 ("hot and cold"): a key
+// accessed once in a period keeps its single access (heat exactly 1), every other access becomes
+// a few hundred, so that the heats of the hot keys end up close to each other.
+func fold(b gbeh, scale int, r *rand.Rand) history {
 	h := history{Cap: b.Cap, Source: "tlc"}
 	job := -1 // index in h.Ops of the job in progress
 	calls := 0
+	// accesses per key in every period (a period ends with a collect)
+	period := 0
+	perKey := []map[string]int{{}}
 	for _, s := range b.Steps {
 		switch s.A {
 		case "incr":
-			h.Ops = append(h.Ops, op{Op: "incr", C: s.C, K: s.K, N: scale})
+			perKey[period][s.K]++
+		case "collect", "collect0":
+			period++
+			perKey = append(perKey, map[string]int{})
+		}
+	}
+	period = 0
+	for _, s := range b.Steps {
+		switch s.A {
+		case "incr":
+			n := scale
+			if scale == 0 {
+				n = 1
+				if perKey[period][s.K] > 1 {
+					n = 400 + r.Intn(400)
+				}
+			}
+			h.Ops = append(h.Ops, op{Op: "incr", C: s.C, K: s.K, N: n})
 		case "free":
 			h.Ops = append(h.Ops, op{Op: "free", C: s.C})
 		case "tick":
@@ -71,7 +95,11 @@ func fold(b gbeh, scale int) history {
 			}
 		case "collect0": // nothing latched: collect returns at once
 			h.Ops = append(h.Ops, op{Op: "collect"})
+			period++
 		case "collect", "evict":
+			if s.A == "collect" {
+				period++
+			}
 			h.Ops = append(h.Ops, op{Op: s.A})
 			job = len(h.Ops) - 1
 			calls = s.Clk
@@ -152,6 +180,55 @@ func randomHistory(r *rand.Rand, heavy bool) history {
 			h.Ops = append(h.Ops, op{Op: "evict", TicksAt: ticks(h.Cap + 1)})
 			if r.Intn(2) == 0 {
 				h.Ops = append(h.Ops, op{Op: "read"})
+			}
+		}
+	}
+	return h
+}
+
+// targetedHistory aims at one corner of evictStale: the published keys carry different
+// last-update minutes (the clock ticks late inside collect, so that only the last one or two
+// merged keys are fresh), some stale keys have heat exactly 1 (they drop to zero when halved)
+// and the hot keys have heats close to each other (a stale one that is halved falls below a
+// fresh one). evictStale follows at once, in the minute the collect ended in.
+func targetedHistory(r *rand.Rand) history {
+	h := history{Cap: []int{4, 6, 8}[r.Intn(3)], Source: "targeted"}
+	gen := 0
+	for round := 0; round < 2; round++ {
+		hot := 2 + r.Intn(2)
+		cold := 1 + r.Intn(3)
+		if hot+cold > h.Cap {
+			cold = h.Cap - hot
+		}
+		base := 300 + r.Intn(2500)
+		nc := 1 + r.Intn(2)
+		n := 0
+		for i := 0; i < hot; i++ {
+			h.Ops = append(h.Ops, op{Op: "incr", C: fmt.Sprintf("n%d", 1+r.Intn(nc)), K: fmt.Sprintf("h%d", gen), N: base*(60+r.Intn(100))/100 + 1})
+			gen++
+			n++
+		}
+		for i := 0; i < cold; i++ {
+			h.Ops = append(h.Ops, op{Op: "incr", C: fmt.Sprintf("n%d", 1+r.Intn(nc)), K: fmt.Sprintf("c%d", gen), N: 1})
+			gen++
+			n++
+		}
+		// readings of the clock in this collect: one per new key (the previous report has aged out)
+		prevKeys := 0
+		at := n - 1 - r.Intn(2)
+		if at < 1 {
+			at = 1
+		}
+		h.Ops = append(h.Ops, op{Op: "collect", TicksAt: []int{prevKeys + at}})
+		if r.Intn(3) == 0 {
+			h.Ops = append(h.Ops, op{Op: "read"})
+		}
+		h.Ops = append(h.Ops, op{Op: "evict"})
+		h.Ops = append(h.Ops, op{Op: "read"})
+		if round == 0 {
+			// let the survivors of the first round age out before the second
+			for i := 0; i < 7; i++ {
+				h.Ops = append(h.Ops, op{Op: "tick"}, op{Op: "evict"})
 			}
 		}
 	}
@@ -468,24 +545,47 @@ func collectorRun(args []string) error {
 	traceOut := fs.String("trace", "", "events (ndjson)")
 	sumOut := fs.String("sum", "", "history summaries (ndjson)")
 	readers := fs.Int("readers", 3, "parallel HOTKEY readers during every job")
+	win := fs.String("win", "", "TLC behaviours that end inside the evictStale window (ndjson)")
+	winRep := fs.Int("winrep", 4, "how often every window behaviour is driven (hot-and-cold scaling, fresh random heats)")
+	targeted := fs.Int("targeted", 12, "number of random histories aimed at the evictStale window")
 	if err := fs.Parse(args); err != nil {
 		return err
 	}
 	r := rand.New(rand.NewSource(cli.Seed()*7919 + 19))
 	var hs []history
 	if *in != "" {
-		scales := []int{1, 1, 2, 7, 60, 900}
+		scales := []int{0, 1, 1, 2, 7, 60, 900}
 		err := cli.ReadNDJSON(*in, func(line []byte) error {
 			var b gbeh
 			if err := json.Unmarshal(line, &b); err != nil {
 				return err
 			}
-			hs = append(hs, fold(b, scales[r.Intn(len(scales))]))
+			hs = append(hs, fold(b, scales[r.Intn(len(scales))], r))
 			return nil
 		})
 		if err != nil {
 			return err
 		}
+	}
+	if *win != "" {
+		err := cli.ReadNDJSON(*win, func(line []byte) error {
+			var b gbeh
+			if err := json.Unmarshal(line, &b); err != nil {
+				return err
+			}
+			for i := 0; i < *winRep; i++ {
+				h := fold(b, 0, r)
+				h.Source = "tlc-window"
+				hs = append(hs, h)
+			}
+			return nil
+		})
+		if err != nil {
+			return err
+		}
+	}
+	for i := 0; i < *targeted; i++ {
+		hs = append(hs, targetedHistory(r))
 	}
 	for i := 0; i < *n; i++ {
 		hs = append(hs, randomHistory(r, i < *heavyN))
